@@ -282,7 +282,7 @@ func TestC18Commands(t *testing.T) {
 				alphabet = []rune("dfevilmf, ,,DF\tſ")
 			case "payload":
 				n := rapid.SampledFrom([]int{0, 1, 2, 16, 255}).Draw(t, "len")
-				canon = gram.RenderPayload(rapid.SliceOfN(rapid.Byte(), n, n).Draw(t, "bytes"), rapid.IntRange(0, 2).Draw(t, "mode"))
+				canon = gram.RenderPayload(rapid.SliceOfN(rapid.Byte(), n, n).Draw(t, "bytes"), rapid.IntRange(0, 4).Draw(t, "mode"))
 				alphabet = []rune(`\x0123456789abcdefABCDEFuUntr"'` + " é")
 			case "exclude":
 				canon = c18RenderExclude(t, c18GenPrefixes(t, 4))
